@@ -71,6 +71,15 @@ template <class T> static void run_type(Src &s, Case &c, const char *tname)
     // (ii) a then b from one storage
     std::string eb = igris::serialize(b);
     {
+        // two encodings alive at the same time keep their own bytes
+        const auto &ra = igris::serialize(a);
+        const auto &rb = igris::serialize(b);
+        VP_CHECK(std::string(ra) == ea && std::string(rb) == eb, "s20_results_alias", "%s: with both results alive serialize(a) reads %s and serialize(b) reads %s", tname,
+                 hexs(std::string(ra)).c_str(), hexs(std::string(rb)).c_str());
+        std::string cat2 = igris::serialize(a) + igris::serialize(b);
+        VP_CHECK(cat2 == ea + eb, "s20_results_alias", "%s: serialize(a) + serialize(b) gives %s", tname, hexs(cat2).c_str());
+    }
+    {
         std::string cat = ea + eb;
         Exact blk(cat.data(), cat.size());
         igris::deserialize_buffer_storage st(igris::buffer(blk.c(), blk.n));
